@@ -169,6 +169,7 @@ Proof.
   unfold finalize.
   destruct (w_finalized w) eqn:F; [left; cbn [fst snd]; eauto|].
   destruct ((U16MAX <? vt_width v) || (U16MAX <? vt_height v)) eqn:G; [left; cbn [fst snd]; eauto|].
+  destruct (param_sets_too_long (w_vconfig w)) eqn:G2; [left; cbn [fst snd]; eauto|].
   right. split; [reflexivity|].
   destruct (if f then finalize_fast_start w v md (effective_config w)
             else finalize_standard w v md (effective_config w)) as [bufs term].
